@@ -33,6 +33,12 @@ def plan(tier):
                           setup=("contracts.typestate", "setup"), replay=("contracts.client_replay", "replay_typestate")))
     pl.static = [static_frames]
 
+    def bounded_caps(tier, seed):
+        from bounded import client_bounded as cb
+        return cb.bounded_get_capabilities(PID, tier, seed)
+
+    pl.bounded = [bounded_caps]
+
     def lf(u, label):
         return label.startswith(("A1.", "A2.", "T.", "callee-precondition.")) or ".loop" in label
 
@@ -44,7 +50,7 @@ def plan(tier):
                     ("sievelib.managesieve", "Client._oauthbearer_authentication"),
                     ("sievelib.managesieve", "Client._digest_md5_authentication")] + \
                    [("sievelib.managesieve", "Client.%s" % m) for m in client.public_methods()]
-    pl.trusted = [common.TRUSTED_ENV_SOCKET, common.TRUSTED_SERVER, common.ASSUMED_GET_CAPABILITIES,
+    pl.trusted = [common.TRUSTED_ENV_SOCKET, common.TRUSTED_SERVER, common.ASSUMED_GET_CAPABILITIES + " -- bounded-checked on every run (all subsets of the known capabilities, labelled bounded)",
                   "ssl: create_default_context().wrap_socket returns a new socket (ghost tls := True) or raises ssl.SSLError",
                   "contract of Client.__send_command (one command, one reply; proved separately under C08.W3/C15.I)",
                   "listscripts' line regex is over-approximated by `None or a match with arbitrary groups` (sound for typestate)"]
